@@ -224,3 +224,26 @@ Definition judge_c08budget (io : list Z) : list Z :=
       end
   | None => [0; 99]
   end.
+
+(* C08, engines that share nothing but the process (stream c08par): >= 4 fresh engines serve the same
+   request at the same time, no WithCounters option, node counts read from the printed lines.
+   Observation:  engines plies soloAgree badEngine badStep badWhat maxNodes budget refNodes refDepth
+   Clauses
+     6  two solo runs of the request agree (baseline of the comparison)
+     7  every concurrently running engine reproduces the solo run: move, score, ponder move, node
+        count and every printed line (time excluded)        [0; 7; engine; ply; observable]
+     3  no printed node count passes the hard budget (maxNodes <= budget) *)
+Definition judge_c08par (io : list Z) : list Z :=
+  match parse_request io with
+  | Some (_, obs) =>
+      match obs with
+      | [-1; -1; -1] => [0; 98]
+      | [engines; plies; solo; bade; bads; badw; maxn; budget; refn; refd] =>
+          if (0 <=? budget) && (budget <? maxn) then [0; 3]
+          else if negb (solo =? 1) then [0; 6]
+          else if negb (bade =? -1) then [0; 7; bade; bads; badw]
+          else [1]
+      | _ => [0; 99]
+      end
+  | None => [0; 99]
+  end.
